@@ -563,4 +563,11 @@ def anchorKeyForeignOwner (env : Env) (trace : List (Query × UpOut)) : Bool :=
     | .ok m | .noRecords m => m.all.any fun r => r.rtype == tDNSKEY && env.anchor r.rid && !r.name.isRoot
     | _ => false
 
+/-- `C07.DsSignedByOwnerInheritsInsecure` (open): an RRSIG covering DS whose signer is its (non-root) owner -/
+def dsSignedByOwner (trace : List (Query × UpOut)) : Bool :=
+  trace.any fun e =>
+    match e.2 with
+    | .ok m | .noRecords m => m.all.any fun s => s.isSig && s.covered == tDS && !s.name.isRoot && s.signer == s.name
+    | _ => false
+
 end HickoryVerif.Chain
